@@ -1,11 +1,14 @@
 package main
 
 import (
+	"bytes"
 	"context"
+	"encoding/binary"
 	"fmt"
 	"github.com/fullstorydev/grpchan/inprocgrpc"
 	"google.golang.org/grpc/codes"
 	"google.golang.org/grpc/status"
+	"google.golang.org/protobuf/proto"
 	"io"
 	"net/http"
 	"net/http/httptest"
@@ -202,6 +205,42 @@ func runC05HTTP(o *hx.Out, r *hx.Rand, thorough bool) {
 			map[string]interface{}{"transport": t.name, "scenario": "handler: 5 sends on one goroutine, receives on another; client: 6 sends, CloseSend, then receives", "completed_in_3s": ok, "client_sends_ok": sends, "client_received": got, "final": fmt.Sprint(fin)},
 			"a handler sending and receiving concurrently deadlocked with a client that sends before it receives")
 		t.stop()
+	}
+	// (c1c) the peer answers BEFORE it has read the request (a 404 from a front end, or a complete early reply
+	// whose trailer carries the status) while the client is inside SendMsg: that SendMsg returns
+	{
+		tr, _ := proto.Marshal(&httpgrpc.HttpTrailer{Code: 7, Message: "refused early"})
+		pre := make([]byte, 4)
+		binary.BigEndian.PutUint32(pre, uint32(int32(-len(tr))))
+		early := append(append([]byte{}, pre...), tr...)
+		for _, how := range []string{"404 without a body", "complete reply with a trailer"} {
+			rt := roundTripFunc(func(rq *http.Request) (*http.Response, error) {
+				time.Sleep(60 * time.Millisecond) // the client is inside SendMsg by now; the request body is never read
+				h := http.Header{}
+				if how == "404 without a body" {
+					return &http.Response{StatusCode: 404, Status: "404 Not Found", Proto: "HTTP/1.1", ProtoMajor: 1, ProtoMinor: 1, Header: h, Body: io.NopCloser(bytes.NewReader(nil)), Request: rq}, nil
+				}
+				h.Set("Content-Type", httpgrpc.StreamRpcContentType_V1)
+				return &http.Response{StatusCode: 200, Status: "200 OK", Proto: "HTTP/1.1", ProtoMajor: 1, ProtoMinor: 1, Header: h, Body: io.NopCloser(bytes.NewReader(early)), Request: rq}, nil
+			})
+			u, _ := url.Parse("http://early.invalid/")
+			ch := &httpgrpc.Channel{Transport: rt, BaseURL: u}
+			ctx, cancel := context.WithTimeout(context.Background(), 4*time.Second)
+			cs, err := ch.NewStream(ctx, hx.StreamDescOf("BD"), "/verif.Svc/BD")
+			var sendErr, recvErr error
+			ok := err == nil
+			if ok {
+				ok = within(bound, func() {
+					sendErr = cs.SendMsg(&hx.Msg{Payload: bytes.Repeat([]byte{1}, 1<<20)})
+				})
+				if ok {
+					ok = within(bound, func() { cs.CloseSend(); recvErr = cs.RecvMsg(&hx.Msg{}) })
+				}
+			}
+			cancel()
+			probe("http_early_reply_releases_send", ok, map[string]interface{}{"transport": "httpgrpc", "scenario": "the peer answers (" + how + ") without reading the request while the client is inside SendMsg of a 1 MB message", "send_returned_in_2s": ok, "send_result": fmt.Sprint(sendErr), "receive": fmt.Sprint(recvErr)},
+				"a SendMsg in flight when the call completed early never returned")
+		}
 	}
 	// (c2a) CloseSend from a second client goroutine lands while a SendMsg is cloning its message (a cloner
 	// that takes its time): whichever order they take effect in, nothing panics and both return
